@@ -14,6 +14,8 @@ static struct { const char *name; int (*fn)(FILE *, FILE *); } cmds[] = {
     {"copy", cmd_copy},
     {"feed", cmd_feed},
     {"update", cmd_update},
+    {"tool", cmd_tool},
+    {"fault", cmd_fault},
     {NULL, NULL}
 };
 
